@@ -108,11 +108,38 @@ func classSort(class string, s *term.Sort) *term.Sort {
 	return term.Arr(term.Int, s)
 }
 
+// embedCanon maps the class prefix of a by-value embedded first field to the class of the
+// embedded struct type: an object and its first embedded struct share the reference (like a C
+// struct prefix), so *Outer and *Embedded views of the same memory use the same heap arrays.
+var embedCanon = map[string]string{}
+
+func canon(class string) string {
+	if len(embedCanon) == 0 || !strings.HasPrefix(class, "f:") {
+		return class
+	}
+	for changed := true; changed; {
+		changed = false
+		for from, to := range embedCanon {
+			if classMatches(class, from) {
+				class = to + class[len(from):]
+				changed = true
+			}
+		}
+	}
+	return class
+}
+
 func (x *Exec) heapArr(st *State, class string, s *term.Sort) *T {
+	class = canon(class)
 	if a, ok := st.Heap[class]; ok {
 		return a
 	}
 	a := term.Var("H0!"+class, classSort(class, s))
+	if x.Init != nil && !x.building {
+		if e, ok := x.Init.Extra[class]; ok {
+			a = e
+		}
+	}
 	st.Heap[class] = a
 	x.classSorts[class] = s
 	x.rangeAxiom(class, a)
@@ -148,6 +175,7 @@ func (x *Exec) rangeAxiom(class string, arr *T) {
 
 // initObj returns the init-region content for (class, ref) if ref is a constant in the init region.
 func (x *Exec) initObj(class string, ref *T) (*T, bool) {
+	class = canon(class)
 	k, ok := ref.Int64()
 	if !ok || k < InitBase || k >= FreshBase {
 		return nil, false
@@ -165,6 +193,7 @@ func (x *Exec) initObj(class string, ref *T) (*T, bool) {
 
 // loadComp reads one scalar component.
 func (x *Exec) loadComp(st *State, class string, s *term.Sort, ref, idx *T) *T {
+	class = canon(class)
 	if ref.Op == term.OIte {
 		a := x.loadComp(st, class, s, ref.Args[1], idx)
 		b := x.loadComp(st, class, s, ref.Args[2], idx)
@@ -189,6 +218,7 @@ func (x *Exec) loadComp(st *State, class string, s *term.Sort, ref, idx *T) *T {
 func (st *State) dirtyInit(class string) bool { return false }
 
 func (x *Exec) storeComp(st *State, class string, s *term.Sort, ref, idx, v *T) {
+	class = canon(class)
 	if ref.Op == term.OIte {
 		// store through a conditional reference: split
 		c := ref.Args[0]
@@ -223,7 +253,7 @@ func (x *Exec) loadAt(st *State, class, path string, ty types.Type, ref, idx *T)
 	ts := make([]*T, len(cs))
 	for i, c := range cs {
 		if c.ty != nil {
-			x.classTy[class+path+c.suffix] = c.ty
+			x.classTy[canon(class+path+c.suffix)] = c.ty
 		}
 		ts[i] = x.loadComp(st, class+path+c.suffix, c.sort, ref, idx)
 	}
@@ -333,12 +363,12 @@ func (x *Exec) initObject(st *State, t types.Type, ref *T) {
 	if isStruct(t) {
 		for _, c := range comps(t) {
 			a := x.heapArr(st, class+c.suffix, c.sort)
-			st.Heap[class+c.suffix] = term.Store(a, ref, zeroTerm(c.sort))
+			st.Heap[canon(class+c.suffix)] = term.Store(a, ref, zeroTerm(c.sort))
 		}
 		// ghost fields start at their zero value too
 		for name, gs := range x.P.ghostFieldsOf(typeKey(t)) {
 			a := x.heapArr(st, class+".$"+name, gs)
-			st.Heap[class+".$"+name] = term.Store(a, ref, zeroTerm(gs))
+			st.Heap[canon(class+".$"+name)] = term.Store(a, ref, zeroTerm(gs))
 		}
 		return
 	}
